@@ -437,6 +437,21 @@ func (s c05Spec) expected() string {
 	}
 	end := "done"
 	calls := len(vis)
+	// a member that fails after its items, seen through the wire: the server cannot send half a listing, so the request
+	// fails and the caller gets the error and nothing else (seed C07-15: items and a Link sent instead, the error lost)
+	failingBelowWire := false
+	for i, l := range s.stack {
+		if l == "unifyerr" {
+			for _, l2 := range s.stack[i+1:] {
+				if l2 == "wire" {
+					failingBelowWire = true
+				}
+			}
+		}
+	}
+	if failingBelowWire {
+		return "yield [] end=error calls=1"
+	}
 	for _, l := range s.stack {
 		if l == "unifyerr" {
 			end = "error" // the listing is complete up to the error, which is delivered last
@@ -470,7 +485,7 @@ func (*c05) Gen(rng *RNG, tier string) []Case {
 	var cases []Case
 	stacks := []string{"mem", "wire", "wire+wire", "debug", "select", "sub", "unify", "wire+debug", "debug+wire", "select+wire", "wire+select",
 		"sub+wire", "wire+sub", "unify+wire", "sub+select", "select+sub", "unify+select+wire", "sub+wire+wire", "unify+sub",
-		"unifyerr", "unifyerr+debug", "unifyerr+select", "unifynf", "unifynf+debug", "unifynf+select"}
+		"unifyerr", "unifyerr+debug", "unifyerr+select", "unifynf", "unifynf+debug", "unifynf+select", "unifyerr+wire", "unifyerr+wire+wire", "unifyerr+debug+wire"}
 	// page sizes above ten thousand and more items than that
 	for _, c := range [][3]int{{10050, 20000, 0}, {10050, 20000, 1}, {10001, 10001, 0}, {10000, 10000, 1}} {
 		cases = append(cases, Case{Tag: "big", Lines: []string{fmt.Sprintf("ls big %d %d %d", c[0], c[1], c[2])}})
@@ -489,6 +504,11 @@ func (*c05) Gen(rng *RNG, tier string) []Case {
 			what = "repos" // a repository unknown to BOTH members is another matter
 		}
 		ps := pick(rng, []int{1, 2, 3, 4, 5, 0, 1000})
+		if strings.HasPrefix(stack, "unifyerr") && strings.Contains(stack, "wire") {
+			// one page holds everything, so the server has to reach the member's error to answer at all (with smaller pages
+			// the full pages before it are delivered first, which is fine too but not a single expected line)
+			ps = pick(rng, []int{0, 1000})
+		}
 		count := rng.Intn(3*ps + 2)
 		if ps == 0 || ps == 1000 {
 			count = rng.Intn(12)
